@@ -1,6 +1,7 @@
 package zv
 
 import (
+	"strconv"
 	"go/token"
 	"strings"
 
@@ -66,249 +67,14 @@ func appendParts(call *ssa.Call) (base ssa.Value, elems []ssa.Value) {
 }
 
 func checkC14(c *Ctx) {
-	c.Rule("R14.1", "no silent drop: every loop exit advances by what it read and accounts for it", 6)
-	c.Rule("R14.2", "representation: typed Field as is, first bare error via zap.Error, pairs via zap.Any; first-error flag only on the bare-error path", 3)
+	c.Rule("R14.1", "no silent drop: every argument is consumed exactly once, in order, within bounds, and accounted for (replay of all paths against the reference model)", 3)
+	c.Rule("R14.2", "representation: typed Field as is, first bare error via zap.Error, pairs via zap.Any; later bare errors reported (replay against the reference model)", 2)
 	c.Rule("R14.3", "routing table of the sugared methods: level, slots, helper", 21)
 	c.Rule("R14.4", "message construction: Sprintln minus its last byte; template / Sprintf / Sprint", 3)
 	c.Rule("R14.5", "a bare error or an error value never vanishes: zap.Error/NamedError skip exactly the nil interface, nothing else", 2)
 	c3NilErrorR(c, "R14.5")
 
-	fn := c.Method(ZapPath, "SugaredLogger", "sweetenFields")
-	if !c.Anchor("R14.1", "zap.SugaredLogger.sweetenFields", fn != nil) {
-		return
-	}
-	name := fn.String()
-	args := fn.Params[1]
-	// loop header: block with the phis named fields / invalid / seenError / i
-	var H *ssa.BasicBlock
-	var pF, pInv, pSeen, pI *ssa.Phi
-	for _, b := range fn.Blocks {
-		var f, iv, se, ii *ssa.Phi
-		for _, in := range b.Instrs {
-			if ph, ok := in.(*ssa.Phi); ok {
-				switch ph.Comment {
-				case "fields":
-					f = ph
-				case "invalid":
-					iv = ph
-				case "seenError":
-					se = ph
-				case "i":
-					ii = ph
-				}
-			}
-		}
-		if f != nil && ii != nil && LoopHeader(b) == b {
-			H, pF, pInv, pSeen, pI = b, f, iv, se, ii
-		}
-	}
-	if H == nil || pInv == nil || pSeen == nil {
-		c.Und("R14.1", name, "loop", fn.Pos(), "cannot identify the sweep loop with its fields/invalid/seenError/i variables")
-		return
-	}
-	bodyStart := H.Succs[0]
-	if !inLoop(bodyStart, H) {
-		bodyStart = H.Succs[1]
-	}
-	inBody := func(b *ssa.BasicBlock) bool { return b != H && (b == bodyStart || bodyStart.Dominates(b)) }
-	errorCallIn := func(b *ssa.BasicBlock) *ssa.Call {
-		for _, in := range b.Instrs {
-			if call, ok := in.(*ssa.Call); ok && IsCallTo(call, "(*go.uber.org/zap.Logger).Error") && Desc(Args(call)[0]) == "s.base" {
-				return call
-			}
-		}
-		return nil
-	}
-	reported := func(b *ssa.BasicBlock) bool {
-		for d := b; d != nil && d != H; d = d.Idom() {
-			if (inBody(d) || d == b) && errorCallIn(d) != nil {
-				return true
-			}
-		}
-		return false
-	}
-	isAppendOnto := func(v ssa.Value, onto *ssa.Phi) bool {
-		call, ok := v.(*ssa.Call)
-		if !ok {
-			return false
-		}
-		base, _ := appendParts(call)
-		for k := 0; k < 4 && base != nil; k++ {
-			if base == ssa.Value(onto) {
-				return true
-			}
-			if ph, ok := base.(*ssa.Phi); ok && ph.Block() != H {
-				// e.g. invalid = make(...) on first use: φ(invalid, make)
-				okAll := true
-				for _, e := range ph.Edges {
-					if e != ssa.Value(onto) {
-						if _, isMake := e.(*ssa.MakeSlice); !isMake {
-							okAll = false
-						}
-					}
-				}
-				return okAll
-			}
-			return false
-		}
-		return false
-	}
-	var accounted func(b *ssa.BasicBlock, fv, iv ssa.Value, depth int) bool
-	accounted = func(b *ssa.BasicBlock, fv, iv ssa.Value, depth int) bool {
-		if depth > 6 {
-			return false
-		}
-		if isAppendOnto(fv, pF) || isAppendOnto(iv, pInv) || reported(b) {
-			return true
-		}
-		var M *ssa.BasicBlock
-		fph, fIsPhi := fv.(*ssa.Phi)
-		iph, iIsPhi := iv.(*ssa.Phi)
-		if fIsPhi && fph.Block() != H {
-			M = fph.Block()
-		} else if iIsPhi && iph.Block() != H {
-			M = iph.Block()
-		}
-		if M == nil {
-			return false
-		}
-		for j, p := range M.Preds {
-			f2, i2 := fv, iv
-			if fIsPhi && fph.Block() == M {
-				f2 = fph.Edges[j]
-			}
-			if iIsPhi && iph.Block() == M {
-				i2 = iph.Edges[j]
-			}
-			if !accounted(p, f2, i2, depth+1) {
-				return false
-			}
-		}
-		return true
-	}
-	readsPlus1 := func(b *ssa.BasicBlock) (bool, ssa.Instruction) {
-		for d := b; d != nil && d != H; d = d.Idom() {
-			for _, in := range d.Instrs {
-				if ia, ok := in.(*ssa.IndexAddr); ok && ia.X == ssa.Value(args) {
-					if bo, ok := ia.Index.(*ssa.BinOp); ok && bo.Op == token.ADD && bo.X == ssa.Value(pI) {
-						return true, ia
-					}
-				}
-			}
-		}
-		return false, nil
-	}
-	nExits := 0
-	for j, p := range H.Preds {
-		if !inBody(p) {
-			continue
-		}
-		nExits++
-		slot := "back-edge#" + itoa(nExits)
-		inc, isInc := pI.Edges[j].(*ssa.BinOp)
-		var k int64
-		if isInc && inc.Op == token.ADD && inc.X == ssa.Value(pI) {
-			k, _ = ConstInt(inc.Y)
-		}
-		r1, ia := readsPlus1(p)
-		okAdv := (k == 1 && !r1) || (k == 2 && r1)
-		c.Check(okAdv, "R14.1", name, slot+"/advance", p.Instrs[len(p.Instrs)-1].Pos(), "this path reads %d argument(s) and advances the index by %d (a mismatch re-reads a value as a key or skips an argument)", map[bool]int{true: 2, false: 1}[r1], k)
-		if r1 && ia != nil {
-			ok := HasAtom(Guards(ia), func(s string) bool { return s == Desc(pI)+" != (len(args) - 1)" })
-			c.Check(ok, "R14.1", name, slot+"/second-read-in-bounds", ia.Pos(), "args[i+1] is read only after the dangling-key test i != len(args)-1")
-		}
-		c.Check(accounted(p, pF.Edges[j], pInv.Edges[j], 0), "R14.1", name, slot+"/accounted", p.Instrs[len(p.Instrs)-1].Pos(), "every way of reaching this loop exit appends to the fields, appends to the invalid pairs, or logs an error entry naming the argument (nothing vanishes)")
-	}
-	// break edges
-	nBreak := 0
-	for _, b := range fn.Blocks {
-		if !inBody(b) {
-			continue
-		}
-		for _, s := range b.Succs {
-			if s != H && !inBody(s) {
-				nBreak++
-				c.Check(reported(b), "R14.1", name, "break#"+itoa(nBreak)+"/reported", b.Instrs[len(b.Instrs)-1].Pos(), "leaving the sweep early (dangling key) is preceded by an error entry carrying the ignored argument")
-			}
-		}
-	}
-	if nExits < 3 {
-		c.Bad("R14.1", name, "exits", fn.Pos(), "expected at least three loop continuations (typed field, bare error, pair), found %d", nExits)
-	}
-	// after the loop: invalid pairs reported
-	okInv := false
-	for _, cl := range Calls(fn) {
-		if IsCallTo(cl, "(*go.uber.org/zap.Logger).Error") && !inBody(cl.Block()) {
-			okInv = HasAtom(Guards(cl), func(s string) bool { return s == "len("+Desc(pInv)+") > 0" }) && strings.Contains(Desc(cl.Common().Args[2]), "")
-			var arr string
-			for _, c2 := range Calls(fn) {
-				if IsCallTo(c2, "go.uber.org/zap.Array") && c2.Block() == cl.Block() {
-					arr = Desc(Args(c2)[1])
-				}
-			}
-			okInv = okInv && arr == Desc(pInv)
-		}
-	}
-	c.Check(okInv, "R14.1", name, "invalid-pairs-reported", fn.Pos(), "after the sweep, a non-empty invalid-pair list is logged at error level with all collected pairs")
-
-	// ---------------- R14.2 ----------------
-	nApp := 0
-	AllInstrs(fn, func(i ssa.Instruction) {
-		call, ok := i.(*ssa.Call)
-		if !ok || !isAppendOnto(call, pF) {
-			return
-		}
-		_, elems := appendParts(call)
-		for _, e := range elems {
-			nApp++
-			d := Desc(e)
-			form := ""
-			switch {
-			case d == "args["+Desc(pI)+"].(zapcore.Field)?#0" || d == "args["+Desc(pI)+"].(zap.Field)?#0":
-				form = "typed Field as is"
-			case d == "Error(args["+Desc(pI)+"].(error)?#0)":
-				form = "zap.Error(err)"
-				ok := HasAtom(Guards(call), func(s string) bool { return s == "!"+Desc(pSeen) })
-				c.Check(ok, "R14.2", name, "first-error-only", call.Pos(), "zap.Error(err) is appended only while no bare error was seen before")
-			case d == "Any(args["+Desc(pI)+"].(string)?#0, args[("+Desc(pI)+" + 1)])":
-				form = "zap.Any(key, value)"
-			}
-			c.Check(form != "", "R14.2", name, "appended-form#"+itoa(nApp), call.Pos(), "appended element is %s (%s); any other constructor changes the representation zap.Any would choose", d, form)
-		}
-	})
-	if nApp != 3 {
-		c.Bad("R14.2", name, "append-sites", fn.Pos(), "expected three append sites onto the fields, found %d", nApp)
-	}
-	// seenError: `true` flows in only from the bare-error path
-	var trueEdges []string
-	okSeen := true
-	var visit func(v ssa.Value, from *ssa.BasicBlock, depth int)
-	visit = func(v ssa.Value, from *ssa.BasicBlock, depth int) {
-		if depth > 5 {
-			return
-		}
-		if cv, ok := v.(*ssa.Const); ok && cv.Value != nil && cv.Value.ExactString() == "true" {
-			atoms := AtomStrings(GuardsOfBlock(from))
-			trueEdges = append(trueEdges, strings.Join(atoms, ","))
-			// (re)setting it on a later bare error changes nothing; setting it for anything else does
-			if !containsS(atoms, "args["+Desc(pI)+"].(error)?#1") {
-				okSeen = false
-			}
-			return
-		}
-		if ph, ok := v.(*ssa.Phi); ok && ph != pSeen {
-			for j, e := range ph.Edges {
-				visit(e, ph.Block().Preds[j], depth+1)
-			}
-		}
-	}
-	for j, e := range pSeen.Edges {
-		if inBody(H.Preds[j]) {
-			visit(e, H.Preds[j], 0)
-		}
-	}
-	c.Check(okSeen && len(trueEdges) >= 1, "R14.2", name, "flag-set-on-bare-error-only", fn.Pos(), "the first-error flag becomes true only on the path that appends zap.Error for a bare error (paths setting it: %v); setting it elsewhere diverts the first bare error into a 'multiple errors' entry", trueEdges)
-
+	c14Sweep(c)
 	c14Routing(c)
 	c14Messages(c)
 }
@@ -375,84 +141,361 @@ func c14Routing(c *Ctx) {
 }
 
 func c14Messages(c *Ctx) {
-	ln := c.Func(ZapPath, "getMessageln")
-	if c.Anchor("R14.4", "zap.getMessageln", ln != nil) {
-		for k, r := range Returns(ln) {
-			d := Desc(RetVals(r)[0])
-			want := "Sprintln(fmtArgs)[:(len(Sprintln(fmtArgs)) - 1)]"
-			if d != want {
-				// the same thing through a scratch buffer: Fprintln(buf, args...), ONE TrimNewline (removes exactly the
-				// final '\n' Fprintln always writes), String(); nothing else written to the buffer
-				if sc, ok := Strip(RetVals(r)[0]).(*ssa.Call); ok && IsCallTo(sc, "(*go.uber.org/zap/buffer.Buffer).String") && isFreshBuffer(Args(sc)[0]) {
-					buf := Strip(Args(sc)[0])
-					nPrint, nTrim, other := 0, 0, 0
-					var pr, tr ssa.Instruction
-					for _, cl := range Calls(ln) {
-						a := Args(cl)
-						switch {
-						case IsCallTo(cl, "fmt.Fprintln") && len(a) == 2 && Strip(a[0]) == buf && Desc(a[1]) == ln.Params[0].Name():
-							nPrint++
-							pr = cl
-						case IsCallTo(cl, "(*go.uber.org/zap/buffer.Buffer).TrimNewline") && Strip(a[0]) == buf:
-							nTrim++
-							tr = cl
-						case IsCallTo(cl, "(*go.uber.org/zap/buffer.Buffer).String", "(*go.uber.org/zap/buffer.Buffer).Free") || cl == ssa.CallInstruction(buf.(*ssa.Call)):
-						default:
-							for _, x := range a {
-								if Strip(x) == buf {
-									other++
+	c14MessageLn(c)
+	c14MessageF(c)
+}
+
+// c14Inline: helpers of the sugared front end that are explored inline when following a message to Logger.Check.
+func c14Inline(h *ssa.Function) bool {
+	return h.Pkg != nil && h.Pkg.Pkg.Path() == ZapPath && !strings.HasPrefix(h.String(), "(*go.uber.org/zap.Logger).") && h.Name() != "sweetenFields"
+}
+
+func c14Resolve(st *ConcState, v ssa.Value) ssa.Value {
+	v = stripConv(v)
+	for k := 0; k < 16; k++ {
+		nx := st.Step(v)
+		if nx == nil {
+			break
+		}
+		v = stripConv(nx)
+	}
+	return v
+}
+
+// c14MessageLn: by path exploration of SugaredLogger.logln (helpers inline): the message handed to Logger.Check is
+// fmt.Sprintln(args...) without exactly its final byte.
+func c14MessageLn(c *Ctx) {
+	fn := c.Method(ZapPath, "SugaredLogger", "logln")
+	if !c.Anchor("R14.4", "zap.SugaredLogger.logln", fn != nil && len(fn.Params) == 4) {
+		return
+	}
+	name := fn.String()
+	argsP := fn.Params[2]
+	isSprintln := func(st *ConcState, v ssa.Value) (*ssa.Call, bool) {
+		cl, ok := c14Resolve(st, v).(*ssa.Call)
+		if !ok || !IsCallTo(cl, "fmt.Sprintln") || len(cl.Call.Args) != 1 {
+			return nil, false
+		}
+		return cl, c14Resolve(st, cl.Call.Args[0]) == ssa.Value(argsP)
+	}
+	nCheck := 0
+	seqs, trunc := ConcPaths(fn, ConcCfg{
+		Inline: c14Inline,
+		Event: func(in ssa.Instruction, st *ConcState) string {
+			x, ok := in.(*ssa.Call)
+			if !ok || !IsCallTo(x, "(*go.uber.org/zap.Logger).Check") {
+				return ""
+			}
+			nCheck++
+			msg := c14Resolve(st, Args(x)[2])
+			if sl, ok := msg.(*ssa.Slice); ok && sl.Max == nil {
+				lowOK := sl.Low == nil
+				if k, known := st.Int(sl.Low); sl.Low != nil && known && k == 0 {
+					lowOK = true
+				}
+				src, okSrc := isSprintln(st, sl.X)
+				if lowOK && okSrc && sl.High != nil {
+					if bo, ok := c14Resolve(st, sl.High).(*ssa.BinOp); ok && bo.Op == token.SUB {
+						if k, known := st.Int(bo.Y); known && k == 1 {
+							if ln, ok := c14Resolve(st, bo.X).(*ssa.Call); ok && CallBuiltin(ln) == "len" {
+								if s2, ok2 := isSprintln(st, ln.Call.Args[0]); ok2 && s2 == src {
+									return "check(sprintln-minus-last-byte)"
 								}
 							}
 						}
 					}
-					if nPrint == 1 && nTrim == 1 && other == 0 && Dominates(pr, tr) && Dominates(tr, sc) {
-						d = want
-					}
 				}
 			}
-			c.Check(d == want, "R14.4", ln.String(), "sprintln-minus-last-byte#"+itoa(k+1), r.Pos(), "the println-style message is fmt.Sprintln(args...) without exactly its final byte (%s); trimming more loses newlines the user passed", d)
-		}
-	}
-	gm := c.Func(ZapPath, "getMessage")
-	if c.Anchor("R14.4", "zap.getMessage", gm != nil) {
-		for k, r := range Returns(gm) {
-			d := Desc(RetVals(r)[0])
-			atoms := AtomStrings(Guards(r))
-			slot := "return#" + itoa(k+1)
-			switch {
-			case d == "template":
-				c.Check(containsS(atoms, "len(fmtArgs) == 0"), "R14.4", gm.String(), "template-verbatim", r.Pos(), "without arguments the template is the message verbatim (guards %v)", atoms)
-			case d == "Sprintf(template, fmtArgs)":
-				c.Check(containsS(atoms, "len(fmtArgs) > 0"), "R14.4", gm.String(), "sprintf", r.Pos(), "with arguments and a template the message is fmt.Sprintf(template, args...)")
-			case d == "Sprint(fmtArgs)" || strings.HasSuffix(d, ".(string)?#0"):
-				// print-style result; reachable for f-style callers when the template is empty at run time
-				if containsS(atoms, `template == ""`) && containsS(atoms, "len(fmtArgs) > 0") {
-					// which callers pass a non-constant template?
-					fstyle := false
-					lg := c.Method(ZapPath, "SugaredLogger", "log")
-					for _, cl := range c.CallersOf("(*go.uber.org/zap.SugaredLogger).log") {
-						if _, isC := ConstString(Args(cl)[2]); !isC {
-							fstyle = true
+			// the same thing through a scratch buffer: Fprintln(buf, args...), ONE TrimNewline (removes exactly the final
+			// '\n' Fprintln always writes), String(); nothing else written to the buffer
+			if sc, ok := msg.(*ssa.Call); ok && IsCallTo(sc, "(*go.uber.org/zap/buffer.Buffer).String") && isFreshBuffer(Args(sc)[0]) {
+				g := sc.Parent()
+				buf := Strip(Args(sc)[0])
+				nPrint, nTrim, other := 0, 0, 0
+				var pr, tr ssa.Instruction
+				for _, cl := range Calls(g) {
+					a := Args(cl)
+					switch {
+					case IsCallTo(cl, "fmt.Fprintln") && len(a) == 2 && Strip(a[0]) == buf && c14Resolve(st, a[1]) == ssa.Value(argsP):
+						nPrint++
+						pr = cl
+					case IsCallTo(cl, "(*go.uber.org/zap/buffer.Buffer).TrimNewline") && Strip(a[0]) == buf:
+						nTrim++
+						tr = cl
+					case IsCallTo(cl, "(*go.uber.org/zap/buffer.Buffer).String", "(*go.uber.org/zap/buffer.Buffer).Free") || cl == ssa.CallInstruction(buf.(*ssa.Call)):
+					default:
+						for _, y := range a {
+							if Strip(y) == buf {
+								other++
+							}
 						}
 					}
-					_ = lg
-					if d == "Sprint(fmtArgs)" {
-						c.Check(!fstyle, "R14.4", gm.String(), "fstyle-empty-template", r.Pos(), "the shared helper sends template == \"\" ∧ len(args) > 0 to fmt.Sprint; printf-style callers (non-constant template) therefore get Sprint instead of fmt.Sprintf(\"\", args...) for an empty template")
-					}
-				} else {
-					c.Bad("R14.4", gm.String(), slot, r.Pos(), "print-style result %s under unexpected guards %v", d, atoms)
 				}
-			default:
-				c.Bad("R14.4", gm.String(), slot, r.Pos(), "unexpected message expression %s", d)
+				if nPrint == 1 && nTrim == 1 && other == 0 && Dominates(pr, tr) && Dominates(tr, sc) {
+					return "check(sprintln-minus-last-byte)"
+				}
+			}
+			return "check(" + st.Desc(Args(x)[2]) + ")"
+		},
+	})
+	if trunc || len(seqs) == 0 {
+		c.Und("R14.4", name, "sprintln-minus-last-byte", fn.Pos(), "path exploration incomplete (%d sequences)", len(seqs))
+		return
+	}
+	var bad []string
+	n := 0
+	for _, sq := range seqs {
+		for _, t := range strings.Split(sq, " ; ") {
+			if strings.HasPrefix(t, "check(") {
+				n++
+				if t != "check(sprintln-minus-last-byte)" {
+					bad = append(bad, t)
+				}
 			}
 		}
-		// the lone-string shortcut equals Sprint for a single string
-		for _, r := range Returns(gm) {
-			d := Desc(RetVals(r)[0])
-			if strings.HasSuffix(d, ".(string)?#0") {
-				atoms := AtomStrings(Guards(r))
-				c.Check(containsS(atoms, "len(fmtArgs) == 1") && d == "fmtArgs[0].(string)?#0", "R14.4", gm.String(), "lone-string", r.Pos(), "the lone-string shortcut returns fmtArgs[0] itself when it is the only argument and a string (= fmt.Sprint of it)")
+	}
+	c.Check(len(bad) == 0 && n > 0, "R14.4", name, "sprintln-minus-last-byte", fn.Pos(), "on every path the println-style message handed to Logger.Check is fmt.Sprintln(args...) without exactly its final byte (trimming more loses newlines the user passed): %v", bad)
+}
+
+// c14MessageF: by path exploration of SugaredLogger.log (helpers inline), with the number of arguments L symbolic: the
+// message is the template itself when there are no arguments, fmt.Sprintf(template, args...) for a non-empty template,
+// fmt.Sprint(args...) for an empty one (a lone string argument may stand for itself).
+func c14MessageF(c *Ctx) {
+	fn := c.Method(ZapPath, "SugaredLogger", "log")
+	if !c.Anchor("R14.4", "zap.SugaredLogger.log", fn != nil && len(fn.Params) == 5) {
+		return
+	}
+	name := fn.String()
+	tmplP, argsP := fn.Params[2], fn.Params[3]
+	var lin func(st *ConcState, v ssa.Value, d int) (a, b int64, ok bool)
+	lin = func(st *ConcState, v ssa.Value, d int) (int64, int64, bool) {
+		if k, known := st.Int(v); known {
+			return k, 0, true
+		}
+		if d > 6 {
+			return 0, 0, false
+		}
+		r := c14Resolve(st, v)
+		switch x := r.(type) {
+		case *ssa.Call:
+			if CallBuiltin(x) == "len" && len(x.Call.Args) == 1 && c14Resolve(st, x.Call.Args[0]) == ssa.Value(argsP) {
+				return 0, 1, true
+			}
+		case *ssa.BinOp:
+			a1, b1, ok1 := lin(st, x.X, d+1)
+			a2, b2, ok2 := lin(st, x.Y, d+1)
+			if ok1 && ok2 {
+				switch x.Op {
+				case token.ADD:
+					return a1 + a2, b1 + b2, true
+				case token.SUB:
+					return a1 - a2, b1 - b2, true
+				}
 			}
 		}
+		return 0, 0, false
+	}
+	isArgs := func(st *ConcState, v ssa.Value) bool { return c14Resolve(st, v) == ssa.Value(argsP) }
+	isTmpl := func(st *ConcState, v ssa.Value) bool { return c14Resolve(st, v) == ssa.Value(tmplP) }
+	seqs, trunc := ConcPaths(fn, ConcCfg{
+		Inline: c14Inline,
+		Event: func(in ssa.Instruction, st *ConcState) string {
+			x, ok := in.(*ssa.Call)
+			if !ok || !IsCallTo(x, "(*go.uber.org/zap.Logger).Check") {
+				return ""
+			}
+			msg := c14Resolve(st, Args(x)[2])
+			switch m := msg.(type) {
+			case *ssa.Parameter:
+				if m == tmplP {
+					return "check(template)"
+				}
+			case *ssa.Call:
+				switch {
+				case IsCallTo(m, "fmt.Sprintf") && len(m.Call.Args) == 2 && isTmpl(st, m.Call.Args[0]) && isArgs(st, m.Call.Args[1]):
+					return "check(sprintf)"
+				case IsCallTo(m, "fmt.Sprint") && len(m.Call.Args) == 1 && isArgs(st, m.Call.Args[0]):
+					return "check(sprint)"
+				}
+			case *ssa.Extract:
+				if ta, ok := m.Tuple.(*ssa.TypeAssert); ok && m.Index == 0 && typeTag(ta.AssertedType) == "string" {
+					if u, ok := c14Resolve(st, ta.X).(*ssa.UnOp); ok {
+						if ia, ok := u.X.(*ssa.IndexAddr); ok && isArgs(st, ia.X) {
+							if k, known := st.Int(ia.Index); known && k == 0 {
+								return "check(lone-string)"
+							}
+						}
+					}
+				}
+			}
+			return "check(?" + st.Desc(Args(x)[2]) + ")"
+		},
+		Branch: func(cond ssa.Value, taken bool, st *ConcState) string {
+			pol := taken
+			for k := 0; k < 8; k++ {
+				if u, ok := cond.(*ssa.UnOp); ok && u.Op == token.NOT {
+					cond, pol = u.X, !pol
+					continue
+				}
+				if nx := st.Step(cond); nx != nil {
+					cond = nx
+					continue
+				}
+				break
+			}
+			if ex, ok := cond.(*ssa.Extract); ok && ex.Index == 1 {
+				if ta, ok := ex.Tuple.(*ssa.TypeAssert); ok && typeTag(ta.AssertedType) == "string" {
+					if pol {
+						return "isstring=T"
+					}
+					return "isstring=F"
+				}
+			}
+			bo, ok := cond.(*ssa.BinOp)
+			if !ok {
+				return ""
+			}
+			// emptiness of the template
+			emptyTest := func(x, y ssa.Value, op token.Token) (string, bool) {
+				if !isTmpl(st, x) {
+					if cl, ok := c14Resolve(st, x).(*ssa.Call); !ok || CallBuiltin(cl) != "len" || !isTmpl(st, cl.Call.Args[0]) {
+						return "", false
+					}
+					if k, known := st.Int(y); !known || k != 0 {
+						return "", false
+					}
+				} else if s, isC := ConstString(c14Resolve(st, y)); !isC || s != "" {
+					return "", false
+				}
+				switch op {
+				case token.EQL, token.LEQ:
+					return map[bool]string{true: "E=T", false: "E=F"}[pol], true
+				case token.NEQ, token.GTR:
+					return map[bool]string{true: "E=F", false: "E=T"}[pol], true
+				}
+				return "", false
+			}
+			if e, ok := emptyTest(bo.X, bo.Y, bo.Op); ok {
+				return e
+			}
+			if e, ok := emptyTest(bo.Y, bo.X, swapOp(bo.Op)); ok {
+				return e
+			}
+			a1, b1, ok1 := lin(st, bo.X, 0)
+			a2, b2, ok2 := lin(st, bo.Y, 0)
+			if !ok1 || !ok2 {
+				return ""
+			}
+			a, b, op := a1-a2, b1-b2, bo.Op
+			if b == 0 {
+				return ""
+			}
+			if b < 0 {
+				a, b, op = -a, -b, swapOp(op)
+			}
+			if b != 1 {
+				return "L?(" + st.Desc(cond) + ")"
+			}
+			if !pol {
+				op = map[token.Token]token.Token{token.LSS: token.GEQ, token.LEQ: token.GTR, token.GTR: token.LEQ, token.GEQ: token.LSS, token.EQL: token.NEQ, token.NEQ: token.EQL}[op]
+			}
+			return "L" + op.String() + strconv.FormatInt(-a, 10)
+		},
+	})
+	if trunc || len(seqs) == 0 {
+		c.Und("R14.4", name, "template-verbatim", fn.Pos(), "path exploration incomplete (%d sequences)", len(seqs))
+		return
+	}
+	const inf = int64(1) << 40
+	bad := map[string][]string{}
+	seen := map[string]bool{}
+	fstyleSprint := ""
+	for _, sq := range seqs {
+		lo, hi := int64(0), inf
+		empty, str0 := 0, 0
+		feasible := true
+		for _, t := range strings.Split(sq, " ; ") {
+			switch {
+			case t == "E=T" || t == "E=F":
+				v := map[string]int{"E=T": 1, "E=F": -1}[t]
+				if empty != 0 && empty != v {
+					feasible = false
+				}
+				empty = v
+			case t == "isstring=T":
+				str0 = 1
+			case t == "isstring=F":
+				str0 = -1
+			case strings.HasPrefix(t, "L?"):
+				bad["template-verbatim"] = append(bad["template-verbatim"], "uninterpreted condition "+t)
+			case len(t) > 2 && t[0] == 'L' && strings.ContainsAny(t[1:2], "<>=!"):
+				i := 1
+				for i < len(t) && strings.ContainsRune("<>=!", rune(t[i])) {
+					i++
+				}
+				k, _ := strconv.ParseInt(t[i:], 10, 64)
+				switch t[1:i] {
+				case "<":
+					hi = min(hi, k-1)
+				case "<=":
+					hi = min(hi, k)
+				case ">":
+					lo = max(lo, k+1)
+				case ">=":
+					lo = max(lo, k)
+				case "==":
+					lo, hi = max(lo, k), min(hi, k)
+				case "!=":
+					if lo == k {
+						lo++
+					}
+					if hi == k {
+						hi--
+					}
+				}
+				if lo > hi {
+					feasible = false
+				}
+			case strings.HasPrefix(t, "check(") && feasible:
+				seen[t] = true
+				switch t {
+				case "check(template)":
+					if hi != 0 {
+						bad["template-verbatim"] = append(bad["template-verbatim"], "the bare template is the message although there may be arguments: "+sq)
+					}
+				case "check(sprintf)":
+					if lo < 1 || empty != -1 {
+						bad["sprintf"] = append(bad["sprintf"], "Sprintf is used without arguments or with a possibly empty template: "+sq)
+					}
+				case "check(sprint)":
+					if lo < 1 || empty != 1 {
+						bad["sprintf"] = append(bad["sprintf"], "Sprint is used although the template may be non-empty (it would be ignored) or there are no arguments: "+sq)
+					} else {
+						fstyleSprint = sq
+					}
+				case "check(lone-string)":
+					if !(lo == 1 && hi == 1 && empty == 1 && str0 == 1) {
+						bad["lone-string"] = append(bad["lone-string"], "the first argument itself is the message without it being the only argument, a string, and the template empty: "+sq)
+					}
+				default:
+					bad["template-verbatim"] = append(bad["template-verbatim"], "unexpected message "+t)
+				}
+			}
+		}
+	}
+	c.Check(len(bad["template-verbatim"]) == 0 && seen["check(template)"], "R14.4", name, "template-verbatim", fn.Pos(), "without arguments the template is the message verbatim, and only then %v", bad["template-verbatim"])
+	c.Check(len(bad["sprintf"]) == 0 && seen["check(sprintf)"], "R14.4", name, "sprintf", fn.Pos(), "with arguments the message is fmt.Sprintf(template, args...) for a non-empty template and fmt.Sprint(args...) for an empty one %v", bad["sprintf"])
+	if seen["check(lone-string)"] || len(bad["lone-string"]) > 0 {
+		c.Check(len(bad["lone-string"]) == 0, "R14.4", name, "lone-string", fn.Pos(), "the lone-string shortcut returns args[0] itself only when it is the only argument, a string, and the template is empty (= fmt.Sprint of it) %v", bad["lone-string"])
+	}
+	if fstyleSprint != "" {
+		// which callers pass a non-constant template?
+		fstyle := false
+		for _, cl := range c.CallersOf("(*go.uber.org/zap.SugaredLogger).log") {
+			if _, isC := ConstString(Args(cl)[2]); !isC {
+				fstyle = true
+			}
+		}
+		c.Check(!fstyle, "R14.4", name, "fstyle-empty-template", fn.Pos(), "the shared helper sends template == \"\" ∧ len(args) > 0 to fmt.Sprint; printf-style callers (non-constant template) therefore get Sprint instead of fmt.Sprintf(\"\", args...) for an empty template")
 	}
 }
